@@ -189,10 +189,13 @@ def _setters(ctx):
                     if isinstance(a, ast.Assign) and norm(a.targets[0]).startswith('self.') \
                             and norm(a.targets[0])[5:] in names:
                         nm = norm(a.targets[0])[5:]
-                        ok = norm(s.test) == f"{nm} is not None" and norm(a.value) == nm
-                        ctx.check(ok, 'LOCK', f"{cls}.__init__: keyword {nm} overrides config only when given",
-                                  detail_bad=f"`if {norm(s.test)}: {norm(a)}`",
-                                  key=f"LOCK|{cls}.__init__|kw|{nm}")
+                        given = norm(s.test) == f"{nm} is not None"
+                        uses = {x.id for x in ast.walk(a.value) if isinstance(x, ast.Name)}
+                        ctx.tri(given and norm(a.value) == nm, not given or nm not in uses,
+                                'LOCK', f"{cls}.__init__: keyword {nm} overrides config only when given",
+                                detail_bad=f"`if {norm(s.test)}: {norm(a)}`",
+                                key=f"LOCK|{cls}.__init__|kw|{nm}",
+                                why=f"`{norm(a)}`: the keyword is passed through a helper that is not decided here")
 
 
 def _consumer_kwargs(ctx, fi, callee):
